@@ -30,7 +30,9 @@ MINUTE = timedelta(minutes=1)
 
 
 def parse_time(s: str) -> datetime:
-    return datetime.fromisoformat(s)
+    """a specification time denotes its minute: the bar clock has minute resolution and the time-trigger constructors
+    document that they drop the seconds ('just set its second to 0')"""
+    return datetime.fromisoformat(s).replace(second=0, microsecond=0)
 
 
 def iso(t: datetime) -> str:
